@@ -77,4 +77,11 @@ def select (cands : List Cand) (defLine : Nat) (spec : ArgSpec) : Sel :=
 def parseLambda (tops : List Top) (defLine : Nat) (spec : ArgSpec) : Sel :=
   select (lambdaNodes defLine tops) defLine spec
 
+/-- the candidates on the line are distinguishable from the target by what `_node_matches_argspec` compares
+(parameter names in order — i.e. also arity —, vararg, kwarg, keyword-only names): no OTHER candidate spanning the
+definition line has the target's visible signature.  Its negation is the only situation in which the code may
+— and must — report ambiguity. -/
+def distinguishable (cands : List Cand) (defLine : Nat) (tgt : Cand) : Bool :=
+  (cands.filter (spans defLine)).all fun m => m == tgt || specOf m.sig != specOf tgt.sig
+
 end Malt.Lambda
